@@ -288,3 +288,28 @@ def nullable_results_rule(res, fx, rule):
                        'PR_COMMAND_JETTISONRESULTS with such a filter while replies are queued crashes the server)' % (f.q, bad.get('l') if bad is not None else ''))
     if n < 1 or m < 1:
         raise AnalysisBroken('%s: nullable sources not found (matcher results %d, Matches() implementations dereferencing the node %d)' % (rule, n, m))
+
+
+def marks_always_rule(res, fx, rule):
+    """DataNode::SetParent places the subscribers' marks on a new node only when it is given a session to notify with: a node attached with NULL there carries no mark, so subscribers that
+    pre-date it never hear of it again (not even of its removal when its owner departs).  The QUIET flag silences the data notification, never the attachment."""
+    res.rule(rule, 'every DataNode::PutChild / InsertOrderedChild call made by a StorageReflectSession passes a session that cannot be NULL as the notify-on-set-parent argument '
+                   '(no NULL literal and no conditional in the argument, looking through locals)', floor=3)
+    n = 0
+    for f in sorted((g for g in fx.funcs.values() if g.full and (g.cls or '') == 'muscle::StorageReflectSession'), key=lambda g: (g.file, g.line)):
+        for c in f.walk():
+            if not (c.is_call() and (c.get('q') or '') in ('muscle::DataNode::PutChild', 'muscle::DataNode::InsertOrderedChild')):
+                continue
+            i = 1 if c['q'].endswith('PutChild') else 3
+            args = c.args()
+            if len(args) <= i:
+                continue
+            n += 1
+            xs = list(A.walk_through_locals(f, args[i]))
+            bad = [x for x in xs if x['k'] in ('GNUNullExpr', 'CXXNullPtrLiteralExpr', 'ConditionalOperator') or (x['k'] == 'IntegerLiteral' and x.get('v') == 0)]
+            res.ob(rule, f.where(c), '%s: the attachment of a node is always announced to the marks machinery' % f.q.split('::')[-1], not bad, function=f.q, key='%s|%s|%s' % (rule, f.q, c.get('l')),
+                   message='%s passes a possibly-NULL session (`%s`) as the notify-on-set-parent argument of %s: DataNode::SetParent() then skips NodeCreated(), the new node gets no subscriber '
+                           'marks, and sessions subscribed before it existed are never told about its later updates or its removal (when its owner departs the node vanishes silently)'
+                           % (f.q, args[i].text(50), c['q'].split('::')[-1]))
+    if n < 3:
+        raise AnalysisBroken('%s: only %d PutChild/InsertOrderedChild call sites found in StorageReflectSession' % (rule, n))
